@@ -242,4 +242,17 @@ def machine : Machine where
     | pc => some s!"the run finished but the target is at {ppcName pc}"
   skip := fun e => e.kind == "note" || e.op == "co.unpark"
 
+/-- families that are run for their oracles only (no correspondence claim): every event is skipped.
+    `cancel_cvlock`: cancellation during the re-lock inside Condvar::wait (the `b_ignore` path of Mutex::lock, F11);
+    its trace interleaves the Condvar's and the Mutex's blockers, which needs the C11 and C05 models side by side. -/
+def oracleOnly : Machine where
+  St := Unit
+  init := fun _ => .ok ()
+  actor := fun _ _ => some 0
+  cands := fun _ _ _ => []
+  inv := fun _ => none
+  where_ := fun _ _ => "-"
+  atEnd := fun _ => none
+  skip := fun _ => true
+
 end MayVerif.Cancel
